@@ -235,7 +235,7 @@ class Fault(Exception):
 
 
 SITES = ["none", "hook_pre_run", "hook_pre_run_task", "hook_post_run_task", "hook_post_run", "save_job_record",
-         "save_result", "record_error", "start_audit", "outputs_from_job"]
+         "save_result", "record_error", "start_audit", "outputs_from_job", "body_changes_cwd", "audit_end_record_fails"]
 
 
 def c35(site, body_fails, pre_exists, x):
@@ -286,6 +286,7 @@ def c35(site, body_fails, pre_exists, x):
         return real_from(cls, job)
 
     d = E.scratch()
+    elsewhere = E.scratch()
     cwd0 = os.getcwd()
     R.FLAGS["fail"] = False
     raised = None
@@ -295,10 +296,17 @@ def c35(site, body_fails, pre_exists, x):
             t(cache_root=d, worker="debug")
             R.clear()
         R.FLAGS["fail"] = bool(body_fails)
+        if name == "body_changes_cwd":
+            R.FLAGS["chdir"] = elsewhere
+        sub_kw = {}
+        if name == "audit_end_record_fails":
+            from pydra.utils.messenger import AuditFlag
+            R.FLAGS["messenger_fails_on_end"] = True
+            sub_kw = dict(audit_flags=AuditFlag.PROV, messengers=[D.ListMessenger()])
         J.save, J.record_error, Audit.start_audit = save, rec, start
         PythonOutputs._from_job = classmethod(from_job)
         try:
-            with Submitter(cache_root=d, worker="debug") as sub:
+            with Submitter(cache_root=d, worker="debug", **sub_kw) as sub:
                 sub(D.Flaky(x=x, tag=5), hooks=hooks)
         except Exception as e:
             raised = e
@@ -306,6 +314,8 @@ def c35(site, body_fails, pre_exists, x):
             J.save, J.record_error, Audit.start_audit = real_save, real_rec, real_start
             PythonOutputs._from_job = classmethod(real_from)
             R.FLAGS["fail"] = False
+            R.FLAGS.pop("chdir", None)
+            R.FLAGS.pop("messenger_fails_on_end", None)
         cwd1 = os.getcwd()
         os.chdir(cwd0)
         left = sorted(f for f in os.listdir(d) if f.endswith("_info.json"))
@@ -316,6 +326,7 @@ def c35(site, body_fails, pre_exists, x):
     finally:
         os.chdir(cwd0)
         E.cleanup(d)
+        E.cleanup(elsewhere)
     T.reach()
     n_body = len(bodies("Flaky"))
     desc = "fault at %s, body_fails=%s, result pre-exists=%s" % (name, body_fails, pre_exists)
@@ -336,10 +347,10 @@ def c35(site, body_fails, pre_exists, x):
     else:
         if calls["post_run_task"] > calls["pre_run_task"]:
             return "%s: post_run_task called without a start" % desc
-    if name == "none" and not body_fails and raised is not None:
+    if name in ("none", "body_changes_cwd") and not body_fails and raised is not None:
         return "%s: raised %r" % (desc, raised)
     site_reached = name not in ("record_error",) or reached["n"] > 0
-    if site_reached and not pre_exists and raised is None and name != "none":
+    if site_reached and not pre_exists and raised is None and name not in ("none", "body_changes_cwd"):
         return "%s: exception swallowed, submission reported success" % desc
     return None
 
